@@ -166,8 +166,8 @@ func (e *Engine) Generate(r *core.Rand, prop string, tier string) core.Trace {
 		}
 	}
 	t.RegInit["5"], t.RegInit["6"] = win(), win()
-	if r.Chance(1, 40) {
-		t.RegInit["5"] = ^uint64(0) - uint64(r.Intn(8)) // accesses wrapping around 2^64 (rare, own signature)
+	if r.Chance(1, 15) {
+		t.RegInit["5"] = ^uint64(0) - uint64(r.Intn(8)) // accesses wrapping around 2^64 (own signature)
 	}
 	for x := 1; x <= 6; x++ {
 		if r.Chance(1, 3) {
